@@ -181,7 +181,23 @@ class ExprMixin:
                                                             or isinstance(ta, T.List) or isinstance(tb, T.List)):
             if isinstance(ta, T.Ref) and isinstance(tb, T.Ref):
                 return a.z == b.z
-            return seq_eq(self.as_seq(a, st), self.as_seq(b, st))
+            sa, sb = self.as_seq(a, st), self.as_seq(b, st)
+            if sa.t.elem != sb.t.elem or (not self.spec and sa.t.elem.reflike and getattr(self.eng.prop, 'hook_eq', None) is not None):
+                # element-wise Python equality (elements of different static types, or classes with their own __eq__)
+                k = z3.Int(fresh_name('k'))
+                ea = SV(sa.t.elem, z3.Select(seq_arr(sa), k))
+                eb = SV(sb.t.elem, z3.Select(seq_arr(sb), k))
+                self.bound.append({})
+                try:
+                    body = self.eq(ea, eb, st)
+                finally:
+                    self.bound.pop()
+                n_ = seq_len(sa)
+                # boundary instances (first / last element) are stated explicitly: they give the solver ground terms to start from
+                first = z3.Implies(n_ > 0, z3.substitute(body, (k, I(0))))
+                last = z3.Implies(n_ > 0, z3.substitute(body, (k, n_ - 1)))
+                return z3.And(n_ == seq_len(sb), z3.ForAll([k], z3.Implies(z3.And(0 <= k, k < n_), body)), first, last)
+            return seq_eq(sa, sb)
         if isinstance(ta, T.Seq) or isinstance(tb, T.Seq):
             raise Unsupported('seq == %s' % tb)
         if ta.reflike and tb.reflike:
@@ -883,11 +899,26 @@ class ExprMixin:
             ln = seq_len(s)
             lo, hi = self.slice_bounds(sl, ln, st)
             k = z3.Int(fresh_name('k'))
-            arr = z3.Lambda([k], z3.Select(seq_arr(s), k + lo))
-            r = mk_seq(s.t.elem, z3.If(hi > lo, hi - lo, I(0)), arr)
+            n_ = z3.If(hi > lo, hi - lo, I(0))
             if self.spec:
-                return r
-            return self.new_list_from_seq(r, st)
+                arr = z3.Lambda([k], z3.Select(seq_arr(s), k + lo))
+                return mk_seq(s.t.elem, n_, arr)
+            # code mode: the copy is a fresh array constant related to the source in both directions (so that quantifier
+            # instantiation works from an index of the copy and from an index of the source)
+            src_arr = seq_arr(s)
+            arr = z3.Const(fresh_name('slice'), src_arr.sort())
+            j = z3.Int(fresh_name('j'))
+            b1 = z3.Implies(z3.And(0 <= k, k < n_), z3.Select(arr, k) == z3.Select(src_arr, k + lo))
+            b2 = z3.Implies(z3.And(lo <= j, j < hi), z3.Select(arr, j - lo) == z3.Select(src_arr, j))
+            try:
+                st.assume(z3.ForAll([k], b1, patterns=[z3.Select(arr, k)]))
+            except z3.Z3Exception:
+                st.assume(z3.ForAll([k], b1))
+            try:
+                st.assume(z3.ForAll([j], b2, patterns=[z3.Select(src_arr, j)]))
+            except z3.Z3Exception:
+                pass
+            return self.new_list_from_seq(mk_seq(s.t.elem, n_, arr), st)
         raise Unsupported('slice of %s' % obj.t)
 
     # ------------------------------------------------------------------ literals of containers
